@@ -86,6 +86,7 @@ type ConnLog struct {
 	AppMsg   []byte
 	AppRecv  bool // an application message was accepted
 	Hang     bool
+	Seq      int64 // order of acceptance (TCP servers)
 }
 
 // Config returns a fresh server-side SecurityConfig.
